@@ -65,6 +65,10 @@ def main():
             print("    " + v[:300])
         if r.returncode == 2:
             print(out[-1500:])
+        # disk hygiene: the run directories of a development run are not needed once the verdict is
+        # recorded (the replay file, if any, is under replays/)
+        import hashlib, shutil
+        shutil.rmtree(os.path.join(ROOT, "work", "runs_alt_" + hashlib.sha1(MT.encode()).hexdigest()[:8], p), ignore_errors=True)
     if kind == "revert":
         sh(["git", "-C", MT, "revert", "--abort"])
     sh(["git", "-C", MT, "checkout", "-q", "--", "."])
